@@ -107,7 +107,7 @@ def worker(job):
     n_to = 0
     for w in inputs:
         c = {"input": w, "rx": impl.rx_matrix(gi, w), "chars": impl.chars(w)}
-        if n_to >= 3:
+        if n_to >= 2:
             c["status"] = "skipped-after-timeouts"
             out["cases"].append(c)
             continue
@@ -292,9 +292,10 @@ def baseline_same(r, c):
 
 
 def gen_jobs(rng, quick, consume):
-    o1 = {"tables": 1, "consume_input": consume, "limit": 4}
-    o0 = {"tables": 0, "consume_input": consume, "limit": 4}
-    ol = {"tables": 1, "consume_input": consume, "lexdis": True, "limit": 4}
+    lim = 3 if quick else 4
+    o1 = {"tables": 1, "consume_input": consume, "limit": lim}
+    o0 = {"tables": 0, "consume_input": consume, "limit": lim}
+    ol = {"tables": 1, "consume_input": consume, "lexdis": True, "limit": lim}
     opts = [o1, o0]
     jobs = glrcases.gen_jobs(rng, True, opts, nrand=(40 if quick else (450 if consume else 250)),
                              maxlen=(4 if quick else 6), layout_variants=True)
